@@ -32,10 +32,12 @@ def run(prog, rep, tier, snap):
     rep.call(bitint.r19_4, prog, rep)
     rep.rule("R19.5", "representation tag discipline in the assign functions", 8)
     rep.call(bitint.r19_5, prog, rep)
-    rep.rule("R19.6", "membership split, shift widths, live degrade loop", 8)
+    rep.rule("R19.6", "membership split, shift widths, live degrade loop covering the whole native list", 10)
     rep.call(bitint.r19_6, prog, rep)
     rep.rule("R19.7", "cursor coverage: no cursor value below the end bound ends a bitset iteration blindly", 4)
     rep.call(bitint.r19_7, prog, rep)
+    rep.rule("R19.10", "the stored number is read off `bi >> 1` only behind the tag test", 1)
+    rep.call(bitint.r19_10, prog, rep)
     rep.rule("R19.9", "signed mask words are not compared relationally in bitset mode", 2)
     rep.call(bitint.r19_9, prog, rep)
     from ..rules import state
